@@ -37,6 +37,7 @@ CONSTANTS MaxBits,          \* bound on the size of a layout under test
           FlexPads,         \* unused bits above the last field of a flexible layout
           FullBits,         \* assignment / extra-initialiser tables use every raw pattern up to this size
           EnumClasses,      \* names of the enumeration classes under test (enum stage)
+          FlagTier,         \* "none" / "small" / "quick" / "thorough": the family of flag classes (FlagFamily)
           Mutant            \* "" or a seeded specification error (non-vacuity of the theorems)
 
 Pow2(n) == 2 ^ n
@@ -76,11 +77,21 @@ SeqToSet(s) == {s[i] : i \in 1..Len(s)}
 BitSet(v, w) == {i \in 0..(w - 1) : (v \div Pow2(i)) % 2 = 1}
 RECURSIVE FromBitSet(_)
 FromBitSet(S) == IF S = {} THEN 0 ELSE LET i == CHOOSE j \in S : TRUE IN Pow2(i) + FromBitSet(S \ {i})
-FlagMask(e)    == UNION {BitSet(m, e.w) : m \in SeqToSet(e.members)}         \* bits used by any member
+(* A flag class = shape width + named members (values, in declaration order; may contain 0, one-bit *)
+(* members, multi-bit members that are aliases of declared one-bit members or bring bits of their   *)
+(* own) + boundary.  The masks are those of Python's enum.Flag (Lib/enum.py, 3.11+):               *)
+FlagMask(e)    == UNION {BitSet(m, e.w) : m \in SeqToSet(e.members)}         \* _flag_mask_: bits used by any member
 SinglesMask(e) == UNION {BitSet(m, e.w) : m \in {x \in SeqToSet(e.members) : Cardinality(BitSet(x, e.w)) = 1}}
-(* Bit patterns that denote a value of the class ("valid raw" of the ShapeCastable laws).  Enum: *)
-(* the members.  Flag (Python enum.Flag, boundary STRICT or CONFORM): every combination of bits  *)
-(* used by members, named or not; boundary KEEP: every pattern.                                  *)
+                                                                             \* _singles_mask_: the canonical (one-bit) flags
+RECURSIVE BitLen(_)
+BitLen(n) == IF n = 0 THEN 0 ELSE 1 + BitLen(n \div 2)
+AllBitsMask(e) == Pow2(BitLen(FromBitSet(FlagMask(e)))) - 1                  \* _all_bits_: up to the highest used bit,
+                                                                             \* NOT the width of the shape
+GapBits(e) == BitSet(AllBitsMask(e), e.w) \ FlagMask(e)                      \* unused bits below the highest used bit
+(* Bit patterns that denote a value of the class ("valid raw" of the ShapeCastable laws: Class(v) *)
+(* is a member with value v).  Enum: the members.  Flag: every combination of bits used by        *)
+(* members, named or not (also bits that only a multi-bit member uses); boundary KEEP: every      *)
+(* pattern.  (STRICT raises for other patterns, CONFORM drops the other bits, EJECT returns an int.)*)
 ValidValue(e, v) ==
     IF e.k = "int" THEN v \in Range(e)
     ELSE IF ~e.flag THEN v \in SeqToSet(e.members)
@@ -90,17 +101,26 @@ ValidValues(e) == {v \in Range(e) : ValidValue(e, v)}
 FlagOr(e, a, b)  == FromBitSet(BitSet(a, e.w) \cup BitSet(b, e.w))
 FlagAnd(e, a, b) == FromBitSet(BitSet(a, e.w) \cap BitSet(b, e.w))
 FlagXor(e, a, b) == FromBitSet((BitSet(a, e.w) \cup BitSet(b, e.w)) \ (BitSet(a, e.w) \cap BitSet(b, e.w)))
-(* ~a: "only bits corresponding to flags actually defined in the enumeration are included in the *)
-(* result" (FlagView.__invert__, enum.Flag.__invert__); with boundary KEEP every bit is kept.    *)
+FlagEq(e, a, b) == a = b
+FlagBool(e, a) == a # 0
+FlagIn(e, a, b) == BitSet(a, e.w) \subseteq BitSet(b, e.w)                   \* `a in b`
+(* ~a as enum.Flag.__invert__ defines it (the integer Python computes; FlagView.__invert__: "just  *)
+(* like the Python enum.Flag class, only bits corresponding to flags actually defined in the       *)
+(* enumeration are included in the result"):                                                      *)
+(*   STRICT, CONFORM: the canonical flags not in a            (_singles_mask_ & ~a)               *)
+(*   KEEP, EJECT:     Class(~a): all bits up to the highest used bit, complemented; if that is no *)
+(*                    value of the class (a has bits above, or an unused bit would be set) EJECT  *)
+(*                    returns the integer ~a itself and KEEP complements within the bits of a      *)
 FlagNot(e, a) ==
-    IF Mutant = "flag_not_unmasked" \/ e.boundary = "keep"
-    THEN FromBitSet((0..(e.w - 1)) \ BitSet(a, e.w))
+    IF Mutant = "flag_not_unmasked" THEN FromBitSet((0..(e.w - 1)) \ BitSet(a, e.w))
+    ELSE IF e.boundary \in {"keep", "eject"}
+    THEN LET all == AllBitsMask(e)
+             out == a > all \/ (GapBits(e) \ BitSet(a, e.w)) # {} IN
+         IF ~out THEN all - a
+         ELSE IF e.boundary = "eject" THEN 0 - a - 1
+         ELSE Max2(all + 1, Pow2(BitLen(a + 1))) - a - 1
     ELSE FromBitSet(SinglesMask(e) \ BitSet(a, e.w))
-(* classes outside these assumptions have murky Python semantics and are not generated *)
-ASSUME \A nm \in DOMAIN Catalogue : LET e == Catalogue[nm] IN
-          e.k = "enum" /\ e.flag =>
-             /\ SinglesMask(e) = FlagMask(e)                        \* every used bit has a one-bit member
-             /\ (e.boundary = "keep" => (e.w - 1) \in FlagMask(e))  \* Python's "all bits" = the shape's bits
+FlagNotBits(e, a) == FlagNot(e, a) % Pow2(e.w)       \* the same as a bit pattern of the shape (what a view can hold)
 
 ----------------------------------------------------------------------------
 (* Placement rules                                                                              *)
@@ -365,10 +385,30 @@ EnumTable(e) ==
     LET vs == SetToSeq(ValidValues(e)) IN
     [valid   |-> vs,
      invalid |-> SetToSeq(Range(e) \ ValidValues(e)),
+     \* ops[x][y] = << a|b, a&b, a^b, a==b, a in b >> for a = valid[x], b = valid[y]
      ops     |-> IF ~e.flag THEN <<>> ELSE
                  [x \in 1..Len(vs) |-> [y \in 1..Len(vs) |->
-                     <<FlagOr(e, vs[x], vs[y]), FlagAnd(e, vs[x], vs[y]), FlagXor(e, vs[x], vs[y])>>]],
-     nots    |-> IF ~e.flag THEN <<>> ELSE [x \in 1..Len(vs) |-> FlagNot(e, vs[x])]]
+                     <<FlagOr(e, vs[x], vs[y]), FlagAnd(e, vs[x], vs[y]), FlagXor(e, vs[x], vs[y]),
+                       FlagEq(e, vs[x], vs[y]), FlagIn(e, vs[x], vs[y])>>]],
+     nots    |-> IF ~e.flag THEN <<>> ELSE [x \in 1..Len(vs) |-> FlagNot(e, vs[x])],         \* Python's integer
+     notbits |-> IF ~e.flag THEN <<>> ELSE [x \in 1..Len(vs) |-> FlagNotBits(e, vs[x])],     \* as a pattern of the shape
+     bools   |-> IF ~e.flag THEN <<>> ELSE [x \in 1..Len(vs) |-> FlagBool(e, vs[x])],
+     masks   |-> IF ~e.flag THEN <<>> ELSE
+                 <<FromBitSet(FlagMask(e)), FromBitSet(SinglesMask(e)), AllBitsMask(e)>>]
+
+(* flag classes of the enumerated family: every subset of the one-bit members of a w-bit shape,   *)
+(* up to `max` multi-bit members out of `multi` (aliases of declared flags, partly or wholly       *)
+(* uncovered), with and without a zero member, every boundary                                     *)
+FlagFamily ==
+    CASE FlagTier = "quick"    -> <<[w |-> 3, multi |-> {3, 5, 6, 7}, max |-> 2, zero |-> BOOLEAN],
+                                    [w |-> 4, multi |-> {6, 12, 15}, max |-> 1, zero |-> {FALSE}]>>
+      [] FlagTier = "thorough" -> <<[w |-> 3, multi |-> {3, 5, 6, 7}, max |-> 2, zero |-> BOOLEAN],
+                                    [w |-> 4, multi |-> {3, 5, 6, 7, 9, 10, 11, 12, 13, 14, 15}, max |-> 2, zero |-> {FALSE}]>>
+      [] FlagTier = "small"    -> <<[w |-> 3, multi |-> {6}, max |-> 1, zero |-> {FALSE}]>>
+      [] OTHER                 -> <<>>
+FlagClass(w, S, M, z, b) ==
+    LET mem == (IF z THEN <<0>> ELSE <<>>) \o SetToSeq({Pow2(i) : i \in S}) \o SetToSeq(M)
+    IN EnumShape("F" \o ToString(w) \o b \o ToString(mem), w, FALSE, TRUE, b, mem)
 
 Init == items = <<>> /\ top = NoTop /\ tab = <<>>
 
@@ -389,11 +429,20 @@ FinishFlex   == /\ Len(items) <= (IF NestedCount(items) > 0 THEN 1 ELSE 2)
                 /\ \E offs \in [1..Len(items) -> FlexOffs], pad \in FlexPads : Finish(FlexOf(items, offs, pad))
 EnumCase == /\ top = NoTop /\ items = <<>>
             /\ \E nm \in EnumClasses : top' = Catalogue[nm] /\ tab' = EnumTable(Catalogue[nm]) /\ UNCHANGED items
+FlagCase == /\ top = NoTop /\ items = <<>>
+            /\ \E f \in 1..Len(FlagFamily) :
+                 LET p == FlagFamily[f] IN
+                 \E b \in {"strict", "conform", "eject", "keep"}, z \in p.zero, S \in SUBSET (0..(p.w - 1)) :
+                 \E M \in {X \in SUBSET p.multi : Cardinality(X) <= p.max} :
+                    /\ S # {} \/ M # {} \/ z
+                    /\ top' = FlagClass(p.w, S, M, z, b)
+                    /\ tab' = EnumTable(top')
+                    /\ UNCHANGED items
 
 Next == \/ \E nm \in Leaves : AddLeaf(nm)
         \/ AddInnerStruct \/ AddInnerUnion \/ AddInnerArray \/ AddInnerFlex
         \/ FinishStruct \/ FinishUnion \/ FinishArray \/ FinishFlex
-        \/ EnumCase
+        \/ EnumCase \/ FlagCase
 Spec == Init /\ [][Next]_vars
 
 ----------------------------------------------------------------------------
@@ -501,18 +550,29 @@ TypedInit == IsLayoutState =>
         /\ tab.xconst[x][y] = Pack(L, Normalised(L, f))      \* tab.xconst[x][y] IS Pack(L, f)
         /\ InitOK(L, Normalised(L, f))
 
-(* flag enumerations: closed under the operators, ~ is an involution on valid values, De Morgan  *)
+(* flag enumerations: the binary operators are closed on the values of the class; ~a of STRICT /  *)
+(* CONFORM classes consists of canonical flags only, is disjoint from a, completes a to all        *)
+(* canonical flags, obeys De Morgan, and ~~a is a restricted to the canonical flags; for KEEP /    *)
+(* EJECT classes ~a complements all bits up to the highest used bit (of values in that range)     *)
 FlagLaws == IsEnumState /\ top.flag =>
     LET e == top
-        V == ValidValues(e) IN
+        V == ValidValues(e)
+        sm == FromBitSet(SinglesMask(e)) IN
     \A a \in V :
-        /\ FlagNot(e, a) \in V
-        /\ FlagNot(e, FlagNot(e, a)) = a
-        /\ FlagAnd(e, a, FlagNot(e, a)) = 0
         /\ \A b \in V :
               /\ FlagOr(e, a, b) \in V /\ FlagAnd(e, a, b) \in V /\ FlagXor(e, a, b) \in V
-              /\ FlagNot(e, FlagOr(e, a, b)) = FlagAnd(e, FlagNot(e, a), FlagNot(e, b))
-              /\ FlagXor(e, a, b) = FlagAnd(e, FlagOr(e, a, b), FlagNot(e, FlagAnd(e, a, b)))
+              /\ FlagIn(e, a, b) <=> FlagAnd(e, a, b) = a
+              /\ e.boundary \in {"strict", "conform"} =>
+                    FlagNot(e, FlagOr(e, a, b)) = FlagAnd(e, FlagNot(e, a), FlagNot(e, b))
+        /\ e.boundary \in {"strict", "conform"} =>
+              /\ FlagNot(e, a) \in V
+              /\ FlagAnd(e, FlagNot(e, a), sm) = FlagNot(e, a)
+              /\ FlagAnd(e, a, FlagNot(e, a)) = 0
+              /\ FlagOr(e, FlagAnd(e, a, sm), FlagNot(e, a)) = sm
+              /\ FlagNot(e, FlagNot(e, a)) = FlagAnd(e, a, sm)
+        /\ e.boundary \in {"keep", "eject"} /\ a <= AllBitsMask(e) =>
+              /\ FlagNotBits(e, a) % (AllBitsMask(e) + 1) = AllBitsMask(e) - a
+              /\ (e.boundary = "keep" \/ GapBits(e) \subseteq BitSet(a, e.w)) => FlagNot(e, a) = AllBitsMask(e) - a
 (* the const/from_bits round trip is defined on exactly the valid values; 0 is one of them for   *)
 (* every class used as a field (the initial value of a signal)                                  *)
 EnumValues == IsEnumState => ValidValues(top) \subseteq Range(top) /\ SeqToSet(top.members) \subseteq ValidValues(top)
